@@ -21,7 +21,7 @@ RULE = (
     "activity x logging configuration; hash seed unset; hash seed 1) and all digests must equal the baseline. evaluations = seeded calls "
     "compared with their baseline; distinct_nontrivial = distinct (cell, algorithm, prelude, logging configuration / hash seed) tuples"
 )
-REQUIRED = {"calls_compared": 90, "logging_configs_compared": 20, "dirty_history_compared": 30, "hashseed_compared": 16, "fit_cases": 5, "personalize_cases": 3}
+REQUIRED = {"calls_compared": 90, "logging_configs_compared": 20, "dirty_history_compared": 30, "hashseed_compared": 16, "fit_cases": 5, "personalize_cases": 3, "reused_settings_compared": 4}
 ASSUMPTIONS = [
     "bit-identity of sha256 digests over tensor bytes; matplotlib backend Agg; logs written under a per-case temporary directory",
     "logging grid restricted to what the settings class accepts (plot periodicity a multiple of save periodicity)",
@@ -123,6 +123,7 @@ def run_shard(spec, ctx):
                 variants.append({"prelude": pre, "logs": logs})
             if what == "fit":
                 variants.append({"prelude": [], "logs": {"path": None, "print_periodicity": 2}})  # console printing only, no folder
+                variants.append({"prelude": [], "logs": None, "reuse_settings": True})  # settings object that already served another fit
             dirty = _run_worker(dict(base_job, variants=variants), 0, 1500)
             errs = {e.get("variant"): e for e in dirty.get("errors", [])}
             for j, var in enumerate(variants):
@@ -147,9 +148,11 @@ def run_shard(spec, ctx):
                     ctx.count("logging_configs_compared")
                 if var["prelude"]:
                     ctx.count("dirty_history_compared")
+                if var.get("reuse_settings"):
+                    ctx.count("reused_settings_compared")
                 if d["final"] != ref["final"]:
                     first = next((k for k, (a, b) in enumerate(zip(d["trace"], ref["trace"])) if a != b), None)
-                    why = "logging" if (var["logs"] is not None and not var["prelude"]) else "process-history"
+                    why = "logging" if (var["logs"] is not None and not var["prelude"]) else ("reused-settings-object" if var.get("reuse_settings") else "process-history")
                     ctx.violation(f"repro/{what if what != 'fit' else 'fit'}/depends-on-{why}",
                                   f"seeded {what} differs from the fresh-interpreter baseline after prelude {var['prelude']} with logs {var['logs']}"
                                   + (f" (first diverging iteration: {first + 1})" if first is not None else ""), c2)
